@@ -15,13 +15,15 @@
 //!   the value is destroyed iff it has no strong owner and no strong guard (exactly once),
 //!   a guard / load / swap / compare_and_swap denotes the model's value, a Weak upgrades iff alive.
 //!
-//! Finding F9a (open): debts are matched by address alone and a Weak of an allocation has the same
-//! raw address as its Arc, so a writer of a container of one class pays the debt of a guard of the
-//! other class with the wrong kind of count. The interpreter knows when that can happen (a write
-//! removes allocation `a` from a container of one class while a guard of the other class on `a` is
-//! alive); a count mismatch on `a` right after such a write carries the F9A marker, the guards
-//! concerned are forgotten (their debt is gone, releasing them would take a count that was never
-//! added and free the value under its owners) and the case ends. Everything else is a violation.
+//! Finding F9a (fixed in /repo by 277f98b): debts were matched by address alone and a Weak of an
+//! allocation has the same raw address as its Arc, so a writer of a container of one class paid the
+//! debt of a guard of the other class with the wrong kind of count. The interpreter knows when that
+//! can happen (a write removes allocation `a` from a container of one class while a guard of the
+//! other class borrows `a`; or an owning guard that still refers to a slot is released while a guard
+//! of the other class borrows through that slot); a count or slot mismatch on `a` right after such
+//! an event carries the F9A marker (kept as a diagnosis now that the finding is repaired - it
+//! suppresses nothing), the guards concerned are forgotten (their debt is gone, releasing them would
+//! take a count that was never added and free the value under its owners) and the case ends.
 #![allow(dead_code)]
 use arc_swap::strategy::test_strategies::FillFastSlots;
 use arc_swap::strategy::{CaS, DefaultStrategy, Strategy as AsStrategy};
@@ -32,9 +34,9 @@ use serde::{Deserialize, Serialize};
 use std::cell::RefCell;
 use std::collections::HashMap;
 
-/// Fuzzing mode (E4, sanitizers with leak detection): do not perform the operations the model
-/// predicts to run into finding F9a (they are skipped and counted), instead of performing them and
-/// forgetting the guards concerned.
+/// Optional mode (was used by E4 while finding F9a was open; off everywhere now): do not perform
+/// the operations the model predicts to run into finding F9a (they are skipped and counted),
+/// instead of performing them and forgetting the guards concerned.
 pub static AVOID_F9A: std::sync::atomic::AtomicBool = std::sync::atomic::AtomicBool::new(false);
 
 pub const F9A_MARK: &str = "[F9a: the borrow slot of a guard of one pointer class (strong/weak) was paid with a count of the other class]";
@@ -247,7 +249,11 @@ struct World<F: Fam, St: AsStrategy<F::S> + AsStrategy<Option<F::S>> + AsStrateg
     /// ended in a violation and everything it held was forgotten (nothing may be released in an
     /// unknown state). They are nobody's business here; without this the shrinker, which re-runs
     /// candidates in the same process, would "minimise" any failure to the empty program.
-    base_slots: HashMap<usize, usize>,
+    base_slots: RefCell<HashMap<(usize, usize), usize>>,
+}
+
+fn raw_snapshot() -> Vec<(usize, Vec<usize>)> {
+    verif::nodes().into_iter().map(|n| (n.addr, n.slots)).collect()
 }
 
 thread_local! {
@@ -344,17 +350,11 @@ where
             if n.control != 0 {
                 return Err(format!("node {:x} has control word {:x} between operations", n.addr, n.control));
             }
-            for s in n.slots {
+        }
+        for (_, sl) in self.snapshot() {
+            for s in sl {
                 if s != 3 {
                     *have.entry(s).or_insert(0) += 1;
-                }
-            }
-        }
-        for (a, n) in &self.base_slots {
-            if let Some(h) = have.get_mut(a) {
-                *h = h.saturating_sub(*n);
-                if *h == 0 {
-                    have.remove(a);
                 }
             }
         }
@@ -410,8 +410,35 @@ where
         }
     }
 
-    fn snapshot() -> Vec<(usize, Vec<usize>)> {
-        verif::nodes().into_iter().map(|n| (n.addr, n.slots)).collect()
+    /// The slots of all nodes, as addresses: what a slot holds is the address with the kind of the
+    /// pointer in its two lowest bits (0b11 alone = empty); the audit is by address. A slot that
+    /// was already occupied when the case started and has not changed since (left behind by an
+    /// earlier, failed case of this process) reads as empty.
+    fn snapshot(&self) -> Vec<(usize, Vec<usize>)> {
+        let mut base = self.base_slots.borrow_mut();
+        raw_snapshot()
+            .into_iter()
+            .map(|(n, sl)| {
+                let sl = sl
+                    .into_iter()
+                    .enumerate()
+                    .map(|(i, raw)| {
+                        if let Some(&b) = base.get(&(n, i)) {
+                            if b == raw {
+                                return 3;
+                            }
+                            base.remove(&(n, i));
+                        }
+                        if raw == 3 {
+                            3
+                        } else {
+                            raw & !3
+                        }
+                    })
+                    .collect();
+                (n, sl)
+            })
+            .collect()
     }
     fn slots_with(snap: &[(usize, Vec<usize>)], addr: usize) -> usize {
         snap.iter().map(|(_, sl)| sl.iter().filter(|&&s| s == addr).count()).sum()
@@ -447,18 +474,16 @@ where
     /// guards of the *other* class on the same allocation are the ones finding F9a is about.
     /// Returns their number.
     fn before_removal(&mut self, old: Option<usize>, strong: bool) -> usize {
-        if old.is_none() {
-            // debts on the null pointer left behind by an earlier, failed case are paid too
-            self.base_slots.remove(&0);
-        }
         let mut exposed = 0;
         for g in self.guards.iter_mut() {
             if g.alloc == old && g.in_debt {
-                if old.is_none() || g.strong == strong {
+                if g.strong == strong {
                     g.in_debt = false;
-                } else {
+                } else if old.is_some() {
                     exposed += 1;
                 }
+                // (borrows of the empty value of the other class: nothing is counted for them;
+                // whether the walk clears their slots is read off the slots afterwards)
             }
         }
         if self.guards.iter().any(|g| g.alloc.is_some() && g.alloc == old) {
@@ -469,7 +494,25 @@ where
 
     /// after a write on a container of class `strong` that removed `old`: the known cross-class
     /// payment, or a plain violation
+    /// borrows of the empty value carry no count; which of them a debt walk cleared is observed
+    fn resync_empty_borrows(&mut self) {
+        let snap = self.snapshot();
+        for g in self.guards.iter_mut() {
+            if g.alloc.is_none() && g.in_debt {
+                if let Some((n, i)) = g.slot {
+                    let cur = snap.iter().find(|(a, _)| *a == n).and_then(|(_, sl)| sl.get(i).copied()).unwrap_or(3);
+                    if cur != g.addr {
+                        g.in_debt = false;
+                    }
+                }
+            }
+        }
+    }
+
     fn after_removal(&mut self, old: Option<usize>, strong: bool, exposed: usize, prior: Result<(), String>) -> Result<(), String> {
+        if old.is_none() {
+            self.resync_empty_borrows();
+        }
         if exposed == 0 {
             prior?;
             return self.check_all();
@@ -516,8 +559,8 @@ where
             }
         };
         let addr = p as usize;
-        let after = Self::snapshot();
-        let have = Self::slots_with(&after, addr).saturating_sub(self.base_slots.get(&addr).copied().unwrap_or(0));
+        let after = self.snapshot();
+        let have = Self::slots_with(&after, addr);
         let tracked = self.guards.iter().filter(|g| g.in_debt && g.addr == addr).count();
         let (in_debt, slot) = if have == tracked + 1 {
             let free: Vec<(usize, usize)> = Self::changed(before, &after, true, addr).into_iter().filter(|k| !self.guards.iter().any(|g| g.in_debt && g.slot == Some(*k))).collect();
@@ -547,7 +590,7 @@ where
 
     fn load(&mut self, c: usize) -> Result<(), String> {
         self.stats.loads += 1;
-        let before = Self::snapshot();
+        let before = self.snapshot();
         let g = match &self.conts[c] {
             Cont::S(x) => G::S(x.load()),
             Cont::O(x) => G::O(x.load()),
@@ -580,7 +623,7 @@ where
                 self.allocs[a].wguards -= 1;
             }
         }
-        let before = Self::snapshot();
+        let before = self.snapshot();
         let (addr, strong, in_debt, may_have_slot, alloc) = (r.addr, r.strong, r.in_debt, r.may_have_slot, r.alloc);
         drop(r.g);
         if !in_debt && may_have_slot {
@@ -589,7 +632,7 @@ where
             // the release pays that debt instead of giving the count back ("we'll just pay the
             // debt for that someone else"): the count moves to the other guard. Between guards of
             // one class that is exact; between classes it is finding F9a again.
-            let after = Self::snapshot();
+            let after = self.snapshot();
             let cleared = Self::changed(&before, &after, false, addr);
             if cleared.len() == 1 {
                 if let Some(j) = self.guards.iter().position(|g| g.in_debt && g.slot == Some(cleared[0]) && g.addr == addr) {
@@ -800,7 +843,7 @@ where
             _ => F::dangling(),
         };
         let exposed = if success { self.before_removal(old, strong) } else { 0 };
-        let before = Self::snapshot();
+        let before = self.snapshot();
         let prev: G<F, St> = match &self.conts[c] {
             Cont::S(x) => G::S(x.compare_and_swap(cur_s.as_ref().unwrap(), n_s.unwrap())),
             Cont::O(x) => G::O(x.compare_and_swap(&cur_s, n_s)),
@@ -882,11 +925,11 @@ fn run_with<F: Fam, St>(case: &MCase) -> Result<MStats, String>
 where
     St: AsStrategy<F::S> + AsStrategy<Option<F::S>> + AsStrategy<F::W> + CaS<F::S> + CaS<Option<F::S>> + CaS<F::W> + Default,
 {
-    let mut w: World<F, St> = World { allocs: Vec::new(), conts: Vec::new(), cval: Vec::new(), guards: Vec::new(), handles: Vec::new(), next_id: 0, base_id: 0, stats: MStats::default(), base_slots: HashMap::new() };
-    for (_, sl) in World::<F, St>::snapshot() {
-        for s in sl {
+    let mut w: World<F, St> = World { allocs: Vec::new(), conts: Vec::new(), cval: Vec::new(), guards: Vec::new(), handles: Vec::new(), next_id: 0, base_id: 0, stats: MStats::default(), base_slots: RefCell::new(HashMap::new()) };
+    for (n, sl) in raw_snapshot() {
+        for (i, s) in sl.into_iter().enumerate() {
             if s != 3 {
-                *w.base_slots.entry(s).or_insert(0) += 1;
+                w.base_slots.borrow_mut().insert((n, i), s);
             }
         }
     }
